@@ -456,7 +456,7 @@ Proof. induction 2; eauto using evolves. Qed.
 (* what stays true of an object whatever the machine does to it *)
 Record OInv (c : cfg) (o : mobj) : Prop := {
   oi_is : forall n s, getattr o n = Some (VIs s) -> n = is_name c s;
-  oi_keep : c_over c = false -> forall n k, getattr (orig o) n = Some (VPre k) -> getattr o n = Some (VPre k);
+  oi_keep : c_over c = false -> forall n v, own_val v = true -> getattr (orig o) n = Some v -> getattr o n = Some v;
   oi_attr : getattr (orig o) (c_attr c) = None;
   oi_over : c_over c = true -> forall n v, alookup n (o_inst o) = Some v ->
             n = c_attr c \/ getattr (orig o) n <> None;
@@ -477,10 +477,10 @@ Proof.
   - intros n0 s. seq_case n n0.
     + subst. rewrite getattr_setattr_same. intro E. inversion E; subst. exact Hv.
     + rewrite getattr_setattr_other by auto. apply (oi_is c o H).
-  - intros Hov n0 k Hp. rewrite orig_setattr in Hp. seq_case n n0.
+  - intros Hov n0 k Hown Hp. rewrite orig_setattr in Hp. seq_case n n0.
     + subst. rewrite Hov in Hx. rewrite xorb_false_r in Hx.
-      rewrite (oi_keep c o H Hov _ _ Hp) in Hx. discriminate.
-    + rewrite getattr_setattr_other by auto. apply (oi_keep c o H Hov _ _ Hp).
+      rewrite (oi_keep c o H Hov _ _ Hown Hp) in Hx. destruct k; discriminate.
+    + rewrite getattr_setattr_other by auto. apply (oi_keep c o H Hov _ _ Hown Hp).
   - rewrite orig_setattr. apply (oi_attr c o H).
   - intros Hov n0 v0. rewrite orig_setattr. unfold setattr. simpl. seq_case n n0.
     + subst. intros _. rewrite Hov in Hx. rewrite xorb_true_r in Hx. apply negb_true_iff in Hx.
@@ -499,9 +499,9 @@ Proof.
   - intros n0 s0. seq_case (c_attr c) n0.
     + subst. rewrite getattr_setattr_same. discriminate.
     + rewrite getattr_setattr_other by auto. apply (oi_is c o H).
-  - intros Hov n0 k Hp. rewrite orig_setattr in Hp. seq_case (c_attr c) n0.
+  - intros Hov n0 k Hown Hp. rewrite orig_setattr in Hp. seq_case (c_attr c) n0.
     + subst. rewrite (oi_attr c o H) in Hp. discriminate.
-    + rewrite getattr_setattr_other by auto. apply (oi_keep c o H Hov _ _ Hp).
+    + rewrite getattr_setattr_other by auto. apply (oi_keep c o H Hov _ _ Hown Hp).
   - apply (oi_attr c o H).
   - intros Hov n0 v0. rewrite orig_setattr. unfold setattr. simpl. seq_case (c_attr c) n0; auto.
     rewrite alookup_aset_other by auto. apply (oi_over c o H Hov).
@@ -519,8 +519,8 @@ Proof.
     + subst. unfold getattr. rewrite Ei, Ec, alookup_adel_same. intro Hc.
       apply (oi_cls c o H) in Hc. discriminate.
     + rewrite G by auto. apply (oi_is c o H).
-  - intros Hov n0 k Hp. rewrite Eo in Hp. pose proof (oi_keep c o H Hov _ _ Hp) as Hk.
-    seq_case n0 n; [subst; congruence | rewrite G; auto].
+  - intros Hov n0 k Hown Hp. rewrite Eo in Hp. pose proof (oi_keep c o H Hov _ _ Hown Hp) as Hk.
+    seq_case n0 n; [subst; rewrite Gn in Hk; inversion Hk; subst; discriminate | rewrite G; auto].
   - rewrite Eo. apply (oi_attr c o H).
   - intros Hov n0 v0. rewrite Eo, Ei. seq_case n n0.
     + subst. rewrite alookup_adel_same. discriminate.
@@ -776,7 +776,7 @@ Proof.
     - intro E'. apply alookup_in in E'. apply (Hc _ E'). }
   constructor.
   - intros n s Hn. apply Hg in Hn. discriminate.
-  - intros _ n k Hn. exact Hn.
+  - intros _ n k _ Hn. exact Hn.
   - unfold orig, new_obj. simpl. unfold getattr in *. simpl. destruct (alookup (c_attr c) (o_inst o)); [discriminate|].
     destruct (alookup (c_attr c) (o_cls o)); [discriminate | reflexivity].
   - intros _ n v Hn. right. unfold orig, new_obj, getattr. simpl. simpl in Hn. rewrite Hn. discriminate.
@@ -886,7 +886,7 @@ Qed.
 (* ------------------------------------------------------------------ C11_no_overwrite *)
 Lemma no_overwrite : forall c ops o, wf_cfg c = true -> wf_run wf_op c empty_mach ops = true ->
   In o (m_models (run c ops)) ->
-  (c_over c = false -> forall n k, getattr (orig o) n = Some (VPre k) -> getattr o n = Some (VPre k))
+  (c_over c = false -> forall n v, own_val v = true -> getattr (orig o) n = Some v -> getattr o n = Some v)
   /\ (c_over c = true -> forall n v, alookup n (o_inst o) = Some v ->
         n = c_attr c \/ getattr (orig o) n <> None)
   /\ o_cls (orig o) = o_cls o.
